@@ -41,6 +41,13 @@ def scratch_copy(repo):
 
 def apply_variant(v, root):
     """Returns None if applied, or a reason string if the variant does not apply to this tree."""
+    if v.get("generator") == "alpha_rename":
+        from . import alpha
+        try:
+            alpha.rename_tree(root, suffix=v.get("suffix", "_q"), params=v.get("params", True))
+        except (ValueError, SyntaxError) as e:
+            return f"alpha renaming failed: {e}"
+        return None
     if "patch" in v:
         patch = os.path.join(v["dir"], v["patch"])
         r = subprocess.run(["patch", "-p1", "--no-backup-if-mismatch", "-s", "-f", "-i", patch],
